@@ -30,7 +30,7 @@ def harness(core, N, mode, with_init):
         P = tok.sym_params(e, with_init)
         frames = tok.sym_frames(N)
         V = [tobool(f.valid) for f in frames]
-        mx, ms = P["mx"], P["ms"]
+        mx, ms = P["mx"], P["ms0"]
         conds = {}
         try:
             gen, gsrc = consume(tok.make_tokenizer(core, P, mode, with_init), frames, "generator")
@@ -110,7 +110,7 @@ def concrete_failures(c):
     for k, ((d, s, e), reads, nones) in enumerate(gen):
         cut = len(d) == c["max_length"] and reads == e + 1
         flush = nones == 1 and reads == N + 1
-        excess = 1 <= reads <= N and e + 2 <= reads <= e + c["mcs"] + 2 and not v[reads - 1]
+        excess = 1 <= reads <= N and e + 2 <= reads <= e + max(c["mcs"], 0) + 2 and not v[reads - 1]
         if not (cut or flush or excess):
             fails.append(("C08: token handed over at the wrong moment", "token %d (%d,%d) handed over after %d reads" % (k, s, e, reads)))
     a = [(s, e, len(d), r) for (d, s, e), r, _ in gen]
